@@ -59,7 +59,7 @@ func callIntrinsic(fr *frame, fn *ssa.Function, args []value) (value, bool) {
 	if x.spec > 0 {
 		switch name {
 		case "zzvInt", "zzvIntIn", "zzvBool", "zzvChoice", "zzvFloat", "zzvFloatIn", "zzvString", "zzvByteString",
-			"zzvAssume", "zzvKnown", "zzvKnownEnd", "zzvFreeze", "zzvUnfreeze", "zzvFloatMag", "zzvBodyChildren":
+			"zzvAssume", "zzvKnown", "zzvKnownEnd", "zzvFreeze", "zzvUnfreeze", "zzvFloatMag", "zzvFloatRel", "zzvBodyChildren":
 			panic(specAbort{"intrinsic " + name + " in a speculative arm"})
 		}
 	}
@@ -187,10 +187,21 @@ func callIntrinsic(fr *frame, fn *ssa.Function, args []value) (value, bool) {
 	case "zzvFloatMag":
 		x.floatMag = uint(asInt64(args[0]))
 		return nil, true
+	case "zzvMerge":
+		// zzvMerge(false): explore the following branches by forking only (state merging off)
+		x.noMerge = !args[0].(bool)
+		return nil, true
+	case "zzvFloatRel":
+		x.floatRel = true
+		return nil, true
 	case "zzvAbsLE":
 		// |a-b| <= tol on floats, one term (no forking)
 		d := tb.Sub(x.term(args[0]), x.term(args[1]))
 		return x.mkSym(types.Bool, tb.Le(tb.Abs(d), x.term(args[2]))), true
+	case "zzvCrossLE":
+		// |a*b - c*d| <= tol over the integers (exact, no machine arithmetic)
+		d := tb.Sub(tb.Mul(x.term(args[0]), x.term(args[1])), tb.Mul(x.term(args[2]), x.term(args[3])))
+		return x.mkSym(types.Bool, tb.Le(tb.Abs(d), x.term(args[4]))), true
 	case "zzvFreeze":
 		x.freeze(args[0], x.constStr(args[1], "freeze label"))
 		return nil, true
